@@ -343,8 +343,10 @@ def opt1(prog, rr):
     f = prog.method("Options", "create_model")
     par = f.params[1]
     local, inherit = {}, {}
+    from sa.ir import find_local
+    rets = find_local(f.node, lambda v: isinstance(v, ast.Call) and (dotted(v.func) or "").endswith("CoverageOptionsModel")) or ["ret"]
     for n in walk_local(f.node):
-        if isinstance(n, ast.Assign) and len(n.targets) == 1 and isinstance(n.targets[0], ast.Attribute) and norm(n.targets[0].value) == "ret":
+        if isinstance(n, ast.Assign) and len(n.targets) == 1 and isinstance(n.targets[0], ast.Attribute) and norm(n.targets[0].value) in rets:
             opt = n.targets[0].attr
             g = _guards(f.node, n)
             if norm(n.value) == "self." + opt:
